@@ -641,7 +641,8 @@ func pushConn(up *rtpUpConnection, g *group.Group, cs []group.Client) {
 		up.pushed = true
 		up.mu.Unlock()
 		if !pushed {
-			pushConnNow(up, g, cs)
+			// the member list may have changed while we slept
+			pushConnNow(up, g, g.GetClients(up.client))
 		}
 	}(g, cs)
 }
